@@ -7,8 +7,8 @@ from vlib.regmodel import RegModel
 RULE = ('histories (<=40) over the eight register/unregister methods of one '
         'Components object (utilities, adapters, subscription adapters, '
         'handlers), handle(), re-initialisation; components drawn from a pool '
-        'with equal, identical, hashable and unhashable members (hashability '
-        'uniform within an equality class), names, info, related provided '
+        'with equal, identical, hashable, unhashable and boolean-false members '
+        '(hashability uniform within an equality class), names, info, related provided '
         'interfaces, factory= and event=False variants; oracle = dict/list '
         'model for the registered*() listings and return values, captured '
         'events, rebuildUtilityRegistryFromLocalCache() must find nothing, '
@@ -67,6 +67,10 @@ def op_strategy(draw):
 def case_strategy(draw):
     ops = [draw(op_strategy()) for _ in range(draw(st.integers(6, 40)))]
     return {'unhash': draw(st.lists(st.booleans(), min_size=4, max_size=4)),
+            # components that are false in a boolean context (empty
+            # containers, objects with __len__ == 0) are components too
+            'falsy': draw(st.lists(st.sampled_from([False, False, True]),
+                                   min_size=4, max_size=4)),
             'ops': ops}
 
 
@@ -77,9 +81,14 @@ def strategy(cfg):
 class HashC:
     hashable = True
 
+    falsy = False
+
     def __init__(self, key, variant):
         self.key, self.variant = key, variant
         self.calls = []
+
+    def __bool__(self):
+        return not self.falsy
 
     def __eq__(self, other):
         return isinstance(other, (HashC, UnhashC)) and other.key == self.key
@@ -132,6 +141,8 @@ def run_case(case, cfg, out):
         if (key, variant) not in pool:
             cls = UnhashC if case['unhash'][key] else HashC
             pool[(key, variant)] = cls(key, variant)
+            pool[(key, variant)].falsy = (case.get('falsy') or
+                                          [False] * 4)[key]
         return pool[(key, variant)]
 
     objs = []
